@@ -817,6 +817,8 @@ pub enum FOp {
     Declare,
     Commit,
     Rollback,
+    /// commit of a transactional ACQUISITION (txn.acquire(&mut receiver, credit)): its clean-up flow and the discharge
+    AcqCommit,
 }
 #[derive(Debug, Clone, Copy, PartialEq, Eq, Hash)]
 pub enum FFlt {
@@ -827,7 +829,7 @@ pub enum FFlt {
     PeerCloseErr,
     Eof,
 }
-pub const FOPS: [FOp; 3] = [FOp::Declare, FOp::Commit, FOp::Rollback];
+pub const FOPS: [FOp; 4] = [FOp::Declare, FOp::Commit, FOp::Rollback, FOp::AcqCommit];
 pub const FFAULTS: [FFlt; 6] = [FFlt::CtlDetachOpenErr, FFlt::CtlDetachClosedErr, FFlt::CtlDetachClosed, FFlt::PeerEndErr, FFlt::PeerCloseErr, FFlt::Eof];
 
 #[derive(Debug, Clone, Default)]
@@ -839,7 +841,7 @@ pub struct FObs {
 }
 
 pub async fn scenario_f(opk: FOp, flt: FFlt) -> FObs {
-    use fe2o3_amqp::transaction::{Controller, Transaction, TransactionDischarge};
+    use fe2o3_amqp::transaction::{Controller, Transaction, TransactionAcquisition, TransactionDischarge};
     use fe2o3_amqp_types::definitions::Role;
     use fe2o3_amqp_types::messaging::DeliveryState;
     use fe2o3_amqp_types::transaction::Declared;
@@ -881,7 +883,7 @@ pub async fn scenario_f(opk: FOp, flt: FFlt) -> FObs {
     };
     let task: tokio::task::JoinHandle<String> = match opk {
         FOp::Declare => tokio::spawn(async move { op(async { Transaction::declare(ctrl, None).await.map(|_| ()) }).await }),
-        FOp::Commit | FOp::Rollback => {
+        FOp::Commit | FOp::Rollback | FOp::AcqCommit => {
             // declare first, answered by the scripted coordinator
             let dfut = Transaction::declare(ctrl, None);
             tokio::pin!(dfut);
@@ -907,8 +909,27 @@ pub async fn scenario_f(opk: FOp, flt: FFlt) -> FObs {
                 obs.machinery = Some(format!("part F: the declare before the {:?} did not succeed; trace {:?}", opk, trace_to_strings(&c.peer.trace)));
                 return obs;
             };
-            let commit = opk == FOp::Commit;
-            tokio::spawn(async move { op(async { if commit { txn.commit().await } else { txn.rollback().await } }).await })
+            if opk == FOp::AcqCommit {
+                // a receiving link on the same session; the acquisition puts the txn-id on its flow
+                let rx: &'static mut Receiver = match drive(&mut c.peer, Receiver::attach(&mut session, "acq-r", "q"), scen::H).await {
+                    Some(Ok(r)) => Box::leak(Box::new(r)),
+                    _ => {
+                        obs.machinery = Some("part F: receiver attach for the acquisition failed".into());
+                        return obs;
+                    }
+                };
+                let acq = match drive(&mut c.peer, txn.acquire(rx, 1), scen::H).await {
+                    Some(Ok(a)) => a,
+                    other => {
+                        obs.machinery = Some(format!("part F: acquire failed: {:?}", other.map(|r| r.map(|_| ()).map_err(|e| format!("{e:?}")))));
+                        return obs;
+                    }
+                };
+                tokio::spawn(async move { op(async { acq.commit().await }).await })
+            } else {
+                let commit = opk == FOp::Commit;
+                tokio::spawn(async move { op(async { if commit { txn.commit().await } else { txn.rollback().await } }).await })
+            }
         }
     };
     settle(&mut c.peer, 3).await;
@@ -937,7 +958,9 @@ pub async fn scenario_f(opk: FOp, flt: FFlt) -> FObs {
 fn judge_f(opk: FOp, flt: FFlt, o: &FObs) -> Vec<(String, String)> {
     let mut f = vec![];
     let what = format!("controller op {:?} pending={}, fault {:?}", opk, o.was_pending, flt);
-    if o.result == "TIMEOUT" {
+    if o.result.starts_with("task died") {
+        f.push((format!("controller-op-panics op={:?} fault={:?}", opk, flt), format!("{what}: the application task that awaited the call died: {}", o.result)));
+    } else if o.result == "TIMEOUT" {
         f.push((format!("controller-op-hangs op={:?} fault={:?}", opk, flt), format!("{what}: the call never returned ({} s of virtual time); trace {:?}", OP_TIMEOUT.as_secs(), o.trace)));
     } else if o.result == "ok" {
         f.push((format!("controller-op-ok-after-fault op={:?} fault={:?}", opk, flt), format!("{what}: the coordinator never answered, yet the call returned Ok")));
